@@ -29,6 +29,10 @@ Definition render_path (q : quote) (l : list string) : string := join "." (map (
 Definition render_table (q : quote) (t : table) : string :=
   fmt_alias (render_path q (tpath t)) (talias t) (qstr q) None false.
 
+(* _ddl_target(table) (70f811c): every DDL builder method that takes a Table stores the table itself -
+   a copy without the alias (and without the FOR clause, not modelled) *)
+Definition ddl_target (t : table) : table := mk_table (tname t) (tschema t) None.
+
 (* Column(name, type, nullable, default).  [cdefault] is the already rendered text of the default
    term (ValueWrapper(default).get_sql under the builder's keyword arguments) - opaque here. *)
 Record column := mk_column { cname : string; ctype : option string; cnull : option bool; cdefault : option string }.
@@ -206,9 +210,26 @@ Definition render_create (cls : ccls) (st : cstate) : string :=
       end
   end.
 
+(* The methods as called: create_table / foreign_key pass their Table argument through _ddl_target
+   before anything else; [step]/[run]/[build] above are the builder on already normalised calls. *)
+Definition norm_ccall (c : ccall) : ccall :=
+  match c with
+  | KCreateTable t => KCreateTable (ddl_target t)
+  | KForeignKey a t b od ou => KForeignKey a (ddl_target t) b od ou
+  | _ => c
+  end.
+Definition api_step (cls : ccls) (st : cstate) (c : ccall) : res cstate := step cls st (norm_ccall c).
+Fixpoint api_run (cls : ccls) (st : cstate) (calls : list ccall) : res cstate :=
+  match calls with
+  | [] => Ok st
+  | c :: r => match api_step cls st c with Ok st' => api_run cls st' r | Err e => Err e end
+  end.
+Definition api_build (cls : ccls) (t : table) (calls : list ccall) : res cstate :=
+  api_run cls init_cstate (KCreateTable t :: calls).
+
 (* str(ddl) or the exception class *)
 Definition create_text (cls : ccls) (t : table) (calls : list ccall) : string :=
-  match build cls t calls with Ok st => render_create cls st | Err e => "!" ++ e end.
+  match api_build cls t calls with Ok st => render_create cls st | Err e => "!" ++ e end.
 
 (* ------------------------------------------------------------------------------------------ *)
 (* 3. CreateIndexBuilder                                                                       *)
@@ -261,8 +282,14 @@ Definition render_index (st : istate) : res string :=
                 ++ "(" ++ join ", " (map cname (i_columns st)) ++ ")" in
     Ok (match i_wheres st with [] => base | ws => base ++ " WHERE " ++ join " AND " ws end).
 
+(* on(table) passes a Table argument through _ddl_target *)
+Definition norm_icall (c : icall) : icall :=
+  match c with XOn (ITObj t) => XOn (ITObj (ddl_target t)) | _ => c end.
+Definition api_ibuild (i : iname) (calls : list icall) : istate :=
+  fold_left (fun st c => istep st (norm_icall c)) calls (mk_istate i [] None [] false false).
+
 Definition index_text (i : iname) (calls : list icall) : string :=
-  match render_index (ibuild i calls) with Ok s => s | Err e => "!" ++ e end.
+  match render_index (api_ibuild i calls) with Ok s => s | Err e => "!" ++ e end.
 
 (* ------------------------------------------------------------------------------------------ *)
 (* 4. DropQueryBuilder (+ ClickHouse)                                                          *)
@@ -313,8 +340,17 @@ Definition render_drop (cls : dcls) (st : dstate) : string :=
         end
       else "").
 
+(* drop_table(table) passes a Table argument through _ddl_target *)
+Definition norm_dcall (c : dcall) : dcall :=
+  match c with DDrop k (DTTable t) => DDrop k (DTTable (ddl_target t)) | _ => c end.
+Fixpoint api_drun (cls : dcls) (st : dstate) (calls : list dcall) : res dstate :=
+  match calls with
+  | [] => Ok st
+  | c :: r => match dstep cls st (norm_dcall c) with Ok st' => api_drun cls st' r | Err e => Err e end
+  end.
+
 Definition drop_text (cls : dcls) (calls : list dcall) : string :=
-  match drun cls init_dstate calls with Ok st => render_drop cls st | Err e => "!" ++ e end.
+  match api_drun cls init_dstate calls with Ok st => render_drop cls st | Err e => "!" ++ e end.
 
 (* ------------------------------------------------------------------------------------------ *)
 (* 5. the reader: statement text -> description of the schema object                           *)
